@@ -37,6 +37,35 @@ def plainly_bound(meanings):
     return {m[1] for m in meanings if m[0] == "named" and not m[2] and not m[3]}
 
 
+def _add_symbolic(draw, case):
+    """Append one symbolic axis over a plainly bound name (n+1, 2*n, n-1, n*2/2) to the return annotation -- or, without one, to the
+    last parameter -- together with the matching size (or, one time in four, a size that is off by one)."""
+    params, ret = case["params"], case["ret"]
+    if ret is None and len(params) < 2:
+        return
+    target = ret if ret is not None else params[-1]
+    m = dl.MCtx()
+    plain = set()
+    for p in (params if ret is not None else params[:-1]):
+        o = dl.match(meanings_of(p), p["shape"], m)
+        if o.ctx is not None:
+            m = o.ctx
+        plain |= plainly_bound(meanings_of(p))
+    # only names that some parameter binds plainly (not through '#', which may leave the name unbound): quantifier of C02
+    names = sorted(n for n in m.single if n.isascii() and n in plain)
+    if not names:
+        return
+    nm = ("name", draw(st.sampled_from(names)))
+    expr = draw(st.sampled_from([("bin", "+", nm, ("int", 1)), ("bin", "*", ("int", 2), nm), ("bin", "-", nm, ("int", 1)),
+                                 ("bin", "/", ("bin", "*", nm, ("int", 2)), ("int", 2))]))
+    v = dl.expr_eval(expr, m.single, {})
+    right = draw(st.integers(0, 3)) != 0
+    if right and (v < 0 or v != int(v)):
+        return
+    target["tokens"] = list(target["tokens"]) + [tok_json(dl.Token("", "sym", expr))]
+    target["shape"] = list(target["shape"]) + [int(v) if right else max(0, int(v)) + 1]
+
+
 @st.composite
 def call_case(draw, *, max_params=5, want_return=None, mutate=0.08):
     """-> dict(params=[{name, tokens, shape}], ret={tokens, shape}|None).  Symbolic axes only mention
@@ -88,6 +117,8 @@ def call_case(draw, *, max_params=5, want_return=None, mutate=0.08):
         shape, _ = draw(gd.shape_for(meanings, m, mutate_prob=mutate))
         ret = {"tokens": [tok_json(t) for t in toks], "shape": list(shape)}
     case = {"params": params, "ret": ret}
+    if draw(st.integers(0, 2)) == 0:
+        _add_symbolic(draw, case)
     # targeted breakage: change one axis of one argument (preferably not the first) after the fact, so that
     # each argument alone still tends to match and the conflict is a cross-argument one
     nmut = draw(st.sampled_from([1, 0, 1, 2, 0, 1]))
